@@ -33,6 +33,9 @@ REPLAY_DIR = os.environ.get('VERIF_REPLAY_DIR') or os.path.join(VERIF, 'replays'
 KNOWN_FINDINGS = os.path.join(VERIF, 'known_findings.json')
 GUARD = 'KNAW_HUC_PAGEXML_VERIF'
 
+MAX_MINIMISED = 4      # failing classes whose input is shrunk before it is written as a replay
+MAX_REPORTED = 12      # VIOLATION lines per run (the evidence records how many classes failed)
+
 ALLOWED_AXIOMS = {'propext', 'Classical.choice', 'Quot.sound'}
 FORBIDDEN = re.compile(r'\bsorry\b|\badmit\b|^\s*axiom\s|\bnative_decide\b|\bbv_decide\b|'
                        r'implemented_by|\bunsafe\s|maxHeartbeats\s+0\b|\bopaque\s', re.M)
@@ -612,6 +615,7 @@ def run_check(check: Check, tier: str, seed: int, deadline_s: int) -> int:
     # 6. decide ---------------------------------------------------------------------------
     known = load_known(pid)
     seen_keys = set()
+    n_reported = 0
     for f in findings:
         if f.key in seen_keys:
             continue
@@ -622,7 +626,13 @@ def run_check(check: Check, tier: str, seed: int, deadline_s: int) -> int:
 
         def still_fails(cand: Case, key=f.key) -> bool:
             return any(x.key == key for x in check.oracle(cand, check.impl(cand)))
-        small = minimise(check, f.case, still_fails)
+        # minimise the first few failing classes only (a broken function can produce dozens of keys; the run
+        # must stay within its time box), the others are reported with the input as found
+        n_reported += 1
+        if n_reported > MAX_REPORTED:
+            continue
+        small = minimise(check, f.case, still_fails) if n_reported <= MAX_MINIMISED and \
+            time.time() - t0 < deadline_s * 0.6 else f.case
         o = check.impl(small)
         path = write_replay(pid, 'failing-input', {
             'key': f.key, 'what': f.what, 'case': small.to_json(), 'impl': o,
@@ -643,6 +653,7 @@ def run_check(check: Check, tier: str, seed: int, deadline_s: int) -> int:
                                  for b in broken[:5]]
     cov['known_findings_printed'] = known_lines
     cov['oracle_findings'] = len(findings)
+    cov['failing_classes'] = sorted(k for k in seen_keys if k not in known)[:60]
     ev['violations'] = len(violations)
     ev['wall_s'] = round(time.time() - t0, 2)
     if broken:
